@@ -94,11 +94,13 @@ fn alpn(i: i128) -> Vec<String> {
 fn alpn_idx(v: &[String]) -> i128 {
     (0..ALPNS.len()).find(|i| alpn(*i as i128) == v).map(|i| i as i128).unwrap_or(POISON)
 }
-const HOSTS: [&str; 5] = ["example.com", "*.example.com", "a.example.com", "/re[0-9]+/.example.com", "EXAMPLE.com"];
-const PATHS: [&str; 5] = ["", "/", "/api", "/api/v1", "/a.*"];
+// the last entries carry the separator of the frontend key (`;`) and its escape character: `/api;GET` without
+// method and `/api` with method GET are two frontends (RequestHttpFrontend::to_string escapes the components)
+const HOSTS: [&str; 6] = ["example.com", "*.example.com", "a.example.com", "/re[0-9]+/.example.com", "EXAMPLE.com", "a.example.com;P/api"];
+const PATHS: [&str; 8] = ["", "/", "/api", "/api/v1", "/a.*", "/api;GET", "/api\\;GET", "/api\\"];
 // in the order of the key strings ("...;GET" < "...;POST" < "...;Post" < "...;get"); the lower / mixed-case spellings
 // are there so that a stored method that is not the request's own spelling (case folding) shows in dumps and replays
-const METHODS: [&str; 4] = ["GET", "POST", "Post", "get"];
+const METHODS: [&str; 6] = ["GET", "POST", "Post", "get", "P", ";GET"];
 fn cid(i: i128) -> String {
     format!("c{}", i % 10)
 }
